@@ -582,8 +582,9 @@ def staticReply (P : Program) (obs : Option Obs) : String :=
       let d := den P O
       let t := twoPhaseT P fqid ρ
       -- (the tree theorem says den = twoPhaseT exactly when fragT; compared for every program anyway)
-      let same := sameRun d t &&
-        (!frag || sameRun d (twoPhaseM P fqid (storeOfNodes fqid (staticProgram P fqid).2 O))) &&
+      -- the G / T theorems are plain equalities: replayed exactly (audit pass 2, LOW-6)
+      let same := sameRun d t && (!fragT || exactRun d t) &&
+        (!frag || exactRun d (twoPhaseM P fqid (storeOfNodes fqid (staticProgram P fqid).2 O))) &&
         (!fragE || exactRun (eraseRun d) t) && (!fragR || exactRun (eraseRun d) t)
       let jobDiff := obs.jobs.findSome? fun j =>
         if j.chunk then none else
